@@ -33,6 +33,8 @@ func need(c *Ctx, rule string, fn *ssa.Function, deep bool, desc string, m Match
 	cs := Calls(fn, deep, m)
 	if len(cs) < min {
 		c.Fail(rule, key(fn, "has:"+desc), fn.Pos(), 1, "expected at least %d call(s) to %s in %s, found %d", min, desc, FuncName(fn), len(cs))
+	} else if min > 0 {
+		c.Pass(rule, key(fn, "has:"+desc), fn.Pos(), len(cs), "%d call site(s) of %s", len(cs), desc)
 	}
 	return cs
 }
